@@ -93,14 +93,10 @@ def limits_scn(d, Sc, Ss, segc, segs, msc, known, req, resp, wmax=127):
         if a["type"] == 4:
             if not (1 <= a["win"] <= 127):
                 d.flag(True, "window-out-of-range", win=a["win"], apdu="segment-ack")
-            # the ack answers segments sent by the other side: never more than that side proposed,
-            # never more than the acknowledging side itself would propose
+            # the ack answers segments sent by the other side: never more than that side proposed
             key = (not from_client, 0 if a["srv"] else 3)
             if key in prop and a["win"] > prop[key]:
                 d.flag(True, "window-exceeds-proposal", win=a["win"], proposed=prop[key])
-            own = wc if from_client else ws
-            if a["win"] > own:
-                d.flag(True, "window-exceeds-own-limit", win=a["win"], own=own)
     if req_maxsegs is not None and len(resp_segs) > req_maxsegs:
         d.flag(True, "response-exceeds-max-segments", segments=len(resp_segs), limit=req_maxsegs)
 
@@ -113,14 +109,44 @@ def limits_scn(d, Sc, Ss, segc, segs, msc, known, req, resp, wmax=127):
         if got is None or bytes(got) != bytes(respp):
             raise Violation("ack-payload")
     elif isinstance(out, AbortPDU):
-        # an abort is only legitimate when the limits really could not be met
-        need_req_seg = len(req_segs) > 0
         d.note(abort_reason=out.apduAbortRejectReason)
     else:
         raise Violation("outcome-kind", got=nl.outcome_kind(out))
+    # the outcome the limits dictate (reference arithmetic on the clause 20.1 header sizes): an ack when the
+    # exchange fits what each side announced, otherwise an abort telling the requester
+    want = expected_outcome(len(reqp), len(respp), Sc, Ss, segc, segs, msc, known)
+    if nl.outcome_kind(out) != want:
+        raise Violation("outcome-vs-limits", got=nl.outcome_kind(out), want=want, req=len(reqp), resp=len(respp),
+                        reason=getattr(out, "apduAbortRejectReason", None))
     d.note(frames=len(lan.frames) - n0, req_segments=len(req_segs), resp_segments=len(resp_segs),
            outcome=nl.outcome_kind(out))
     d.reach()
+
+
+def body_len(n):
+    """octets of a ConfirmedPrivateTransfer request/ack body carrying an n-octet string: [0] vendor 999 (3),
+    [1] service 1 (2), opening tag (1), octet-string tag with its length escape, the octets, closing tag (1)"""
+    return 3 + 2 + 1 + (1 if n <= 4 else 2 if n <= 253 else 4) + n + 1
+
+
+def expected_outcome(req_len, resp_len, Sc, Ss, segc, segs, msc, known):
+    rb, sb = body_len(req_len), body_len(resp_len)
+    limit = Ss if known else Sc             # an unknown peer is assumed to accept what we accept
+    if 4 + rb > limit:                      # request must be segmented (6-octet header per segment)
+        if SEG[segc] not in CAN_TX:
+            return "abort"
+        if known and SEG[segs] not in CAN_RX:
+            return "abort"
+        if not known and SEG[segs] not in CAN_RX:
+            return "abort"                  # the server refuses the first segment itself
+    if 3 + sb > Sc:                         # response must be segmented (5-octet header per segment)
+        if SEG[segs] not in CAN_TX or SEG[segc] not in CAN_RX:
+            return "abort"
+        n = -(-sb // (Sc - 5))
+        limit_segs = msc if msc <= 64 else None
+        if limit_segs is not None and n > limit_segs:
+            return "abort"
+    return "ack"
 
 
 def label(p):
